@@ -34,7 +34,14 @@ unsigned case_timeout_s() { return 3000; }
 void final_report() {}
 
 // ---- case layout -------------------------------------------------------------------------------
-static const int NEXH_Q = 48, NEXH_T = 480;
+// the non-arithmetic item variants (-DC08_ITEM_STRING / -DC08_ITEM_SELFMOVE) run a reduced case list: no f >= 15 scenarios,
+// sampled cells with n = 1e4 only
+#ifdef C08_ITEM_NONARITH
+static const bool VARIANT = true;
+#else
+static const bool VARIANT = false;
+#endif
+static const int NEXH_Q = VARIANT ? 28 : 48, NEXH_T = VARIANT ? 160 : 480;
 static std::vector<c08::Cell> cells(bool T) {
   std::vector<c08::Cell> v;
   const int tr = T ? 2000 : 160;
@@ -47,6 +54,7 @@ static std::vector<c08::Cell> cells(bool T) {
   for (int k : {32768, 33000}) v.push_back(c08::Cell{k, 400000, 1, 1, T ? 40 : 6});
   for (int k : {40000, 65535}) v.push_back(c08::Cell{k, 800000, 1, 1, T ? 30 : 5});
   if (T) { v.push_back(c08::Cell{33000, 1000000, 1, 0, 20}); v.push_back(c08::Cell{50000, 1000000, 2, 1, 20}); }
+  if (VARIANT) { std::vector<c08::Cell> w; for (auto c : v) if (c.n == 10000 && c.cfg < 32768) { c.trials = T ? 400 : 60; w.push_back(c); } return w; }
   if (T) { v.push_back(c08::Cell{8, 100000, 1, 0, tr}); v.push_back(c08::Cell{64, 100000, 2, 1, tr}); v.push_back(c08::Cell{1000, 100000, 1, 1, 1000}); }
   return v;
 }
@@ -56,6 +64,7 @@ void run_case(uint64_t idx, Rng& r) {
   const bool T = G().thorough();
   const uint64_t nexh = static_cast<uint64_t>(T ? NEXH_T : NEXH_Q);
   if (idx < nexh) {
+    if (VARIANT) idx += T ? 32 : 8;   // skip the heaviest windows
     const bool want_merge = (idx % 2) == 1;
     int fmin, fmax;
     if (T) {
@@ -68,7 +77,8 @@ void run_case(uint64_t idx, Rng& r) {
     c08::exhaustive_case<KllFam>(r, want_merge, fmin, fmax);
   } else {
     const auto cs = cells(T);
-    c08::sampled_cell_eps<KllFam>(cs[idx - nexh], r);
+    try { c08::sampled_cell_eps<KllFam>(cs[idx - nexh], r); }
+    catch (const std::exception& e) { checked(); fail(std::string(KllFam::name()) + "|sampled|exception-in-valid-usage", G().cur_desc + " what=" + e.what()); }
   }
 }
 
